@@ -52,6 +52,11 @@ def gen_source(rng):
         extra.append(rng.choice(["tol  0.00001;", "big  100000000000000000000.0;", "sm  1.0e-6;", "eps  0.0000005;", "tols  (0.00001 1.0E+22 2.5e-7);",
                                  'scaled  "1 / 100000";'] + ([f'scaled  "${n} / 1000000"' + ";" for n in vs if n != "vec"][:1])))
         nontrivial = True
+    if rng.random() < 0.3:
+        # quoted values that hold a character `str.splitlines` takes for a line boundary (form feed, RS, NEL, LS ...): data
+        ch = rng.choice("\x0b\x0c\x1c\x1d\x1e\x85\u2028\u2029")
+        extra.append(rng.choice([f"pg  'page one{ch}page two';", f"pl  (1 'x{ch} y');", f"pn {{ m 'a {ch}b'; }}"]))
+        nontrivial = True
     for i in range(rng.randrange(0, 4)):
         kind = rng.randrange(6)
         k = f"e{i}_{gen.plain_key(rng)}"
